@@ -67,10 +67,14 @@ def run(ctx):
     # the repository's own suite: the scans it makes of its resource projects, validated by the same specification
     str_, sepisodes, sfails, smeta = sc.validate_suite_scans()
     fails = fails + sfails
+    # the construction of the architecture from the module and import lists, as an algorithm (Graph.tla)
+    from harness.checks import graph_common as gc
+    gfails, gmeta, gmc, gtr = gc.run_all(ctx, 404)
+    fails = fails + gfails
     st = sc.stats(episodes)
     if not st["law_instances"].get("restrict") or not st["law_instances"].get("entry"):
         raise tlc.MachineryError(f"vacuous or erroneous run: {st}")
-    cov = {"real_source_trees": wtrees, "repository_suite_scans_validated": smeta.get("scans", 0), "repository_suite_scans_skipped": smeta.get("skipped", {}), "states": mc.distinct + tr.states, "transitions": mc.generated + tr.transitions,
+    cov = {**gmeta, "real_source_trees": wtrees, "repository_suite_scans_validated": smeta.get("scans", 0), "repository_suite_scans_skipped": smeta.get("skipped", {}), "states": mc.distinct + tr.states + gmc.distinct + gtr.states, "transitions": mc.generated + tr.transitions + gmc.generated + gtr.transitions,
            "model_states": mc.distinct, "model_transitions": mc.generated,
            "traces_validated_against_impl": len(episodes), "trace_events": tr.events,
            "emitted_projects": len(projects), "random_projects": n_rand, **st,
